@@ -48,6 +48,7 @@ LONG = [
     ('byte-size', '10737418', 3), ('time-interval', '123456789', 2), ('port-number', '655', 2), ('port-number', '0000000655', 2),
     ('integer', '-12345678901234567890', 2),
     ('inet-address', 'some.host.example.org:80', 2), ('inet-address', '[2001:db8::1]:8', 2),
+    ('inet-address', '[2001:DB8::A]:8', 1), ('inet-binding-address', '[FE80::1%eth0]:', 2), ('inet-connection-address', 'Some.Host.Example.ORG:', 2),
     ('inet-binding-address', 'some.host.example.org', 2), ('socket-address', '/var/run/some/socke', 2),
     ('socket-address', '[fe80::1]:80', 1),
     ('basic-key', 'a-rather-long.key_nam', 2), ('identifier', 'a_rather_long_identifie', 2),
